@@ -546,6 +546,7 @@ Definition modk_code (m : modk) : N * N :=
   | MEachSub => (49,0) | MFixMatchRanks => (50,0) | MUnBracket => (51,0) | MUnScan => (52,0)
   | MRepeatWithInverse => (53,0) | MRepeatCountConv => (54,0)
   | MBothImpl r n => (55, N.of_nat r * 1000 + N.of_nat n) | MHandleSig => (56,0)
+  | MUnBothImpl r n => (58, N.of_nat r * 1000 + N.of_nat n)
   | MOther id _ => (57, id) end%N.
 Definition modk_eqb (a b : modk) : bool :=
   N.eqb (fst (modk_code a)) (fst (modk_code b)) && N.eqb (snd (modk_code a)) (snd (modk_code b)).
